@@ -192,6 +192,7 @@ FUNCS = {
     'to_trace1_psd_cholesky': lambda th, **k: M.to_trace1_psd_cholesky(th, k['dim'], k['rank']),
     'to_stiefel_euler': lambda th, **k: M.to_stiefel_euler(th, k['dim'], k['rank'], with_phase=k.get('with_phase', False)),
     'to_stiefel_choleskyL': lambda th, **k: M.to_stiefel_choleskyL(th, k['dim'], k['rank']),
+    'to_stiefel_polar': lambda th, **k: M.to_stiefel_polar(th, k['dim'], k['rank']),
     'to_special_orthogonal_cayley': lambda th, **k: M.to_special_orthogonal_cayley(th, k['dim'], order=k.get('order', 2)),
     'to_open_interval': lambda th, **k: M.to_open_interval(th, k['lower'], k['upper']),
     'to_positive_real_softplus': lambda th, **k: M.to_positive_real_softplus(th),
@@ -214,6 +215,21 @@ def replay(p):
         except Exception as e:
             return True, f"{p['fn']}{kw}: batched call raises {type(e).__name__}: {e}"
         return (not H.close(got, per, 1e-9)), f"{p['fn']}{kw}: batch of shape {thb.shape} differs from per-sample calls"
+    if p.get('scales'):
+        import torch as _torch
+        if np.linalg.norm(th) < 1e-9 or (p['fn'] == 'to_stiefel_polar' and np.linalg.matrix_rank((th[:kw['dim'] * kw['rank']] + (1j * th[kw['dim'] * kw['rank']:] if len(th) > kw['dim'] * kw['rank'] else 0)).reshape(kw['dim'], kw['rank'])) < kw['rank']):
+            th = np.random.default_rng(7).normal(size=th.shape)      # the model left theta at a degenerate default (outside the domain: M must have full rank)
+        for sc in p['scales']:
+            for backend in ('numpy', 'torch'):
+                x = th * sc
+                try:
+                    out = f(x if backend == 'numpy' else _torch.tensor(x), **kw)
+                    out = np.asarray(out if backend == 'numpy' else out.numpy())
+                except Exception as e:
+                    return True, f"{p['fn']}{kw} [{backend}]: raises {type(e).__name__}: {e} for theta={x.tolist()}"
+                if not np.all(np.isfinite(out)) or numeric_check(p['kind'], out, **kw):
+                    return True, f"{p['fn']}{kw} [{backend}]: output violates the {p['kind']} constraint for theta = {sc:g} * {np.round(th, 6).tolist()}"
+        return False, f"{p['fn']}{kw}: constraint holds on both backends at scales {p['scales']}"
     try:
         out = f(th, **kw)
     except Exception as e:
@@ -468,6 +484,130 @@ def run(chk):
         for pi, path in handle_raises(explore(fn_name, th2, {}), fn_name, 'positive', {}, th2, []):
             chk.add(f'{fn_name}: strictly positive for every theta (path {pi})', path.pc + path.facts + side_of(path), ir.band_all(ir.rcmp('lt', ir.ZERO, S.as_sc(x).re) for x in H.elems(path.value)),
                     key=f'{fn_name} not positive', replay=('c01', lambda m, th2=th2, fn_name=fn_name: theta_payload(m, th2, fn_name, 'positive', {})))
+    # ---- polar chart X = M (M^dag M)^(-1/2) (the default Stiefel parametrisation of the convex-roof models): eigen-solver / matrix square root by contract
+    #   NumPy:  eigh(A) -> (lambda, V);  X = M V D V^dag, D = diag(sqrt(1/lambda)).   torch:  S = PSDMatrixSqrtm(A);  X = M inv(S).
+    #   code-level obligations: the decomposed matrix is A = M^dag M; X is that product; generic matrix lemmas (fresh atoms) finish X^dag X = I from the contract.
+    from symnp import symtorch as SYT
+    import numqi.manifold._stiefel as STF
+
+    def mmul(*ms):
+        out = ms[0]
+        for m_ in ms[1:]:
+            out = np.dot(out, m_)
+        return out
+
+    def dagm(m_):
+        o = np.empty(m_.shape[::-1], dtype=object)
+        for i in range(m_.shape[0]):
+            for j in range(m_.shape[1]):
+                o[j, i] = S.as_sc(m_[i, j]).conjugate()
+        return o
+
+    def eqm(a_, b_):
+        return [H.eq_sc(x_, y_) for x_, y_ in zip(np.asarray(a_, dtype=object).reshape(-1), np.asarray(b_, dtype=object).reshape(-1))]
+    chk.stub('polar chart: np.linalg.eigh(A) -> symbolic (lambda > 0, V) with the contract V^dag A V = diag(lambda), V V^dag = I; PSDMatrixSqrtm.apply(A) -> symbolic Hermitian S with the contract S S = A; '
+             'torch.linalg.inv -> exact adjugate inverse')
+    for d, r in ((3, 2), (2, 2)) if quick else ((3, 2), (2, 2), (4, 2), (3, 3)):
+        for is_real in (True, False):
+            npar = d * r if is_real else 2 * d * r
+            th = H.re_array(f'po{d}{r}{int(is_real)}_', npar)
+            kw = {'dim': d, 'rank': r}
+            tagp = f'to_stiefel_polar d={d} r={r} real={is_real}'
+            rp = ('c01', lambda m, th=th, kw=kw: dict(theta_payload(m, th, 'to_stiefel_polar', 'stiefel', kw), scales=[1.0, 1e-4, 1e-8]))
+            keyp = f'to_stiefel_polar not isometric {kw_key(kw)} real={is_real}'
+            thp = A.plain(th)
+            Mref = np.array([[S.as_sc(thp[i * r + j]) if is_real else SC(S.as_sc(thp[i * r + j]).re, S.as_sc(thp[d * r + i * r + j]).re) for j in range(r)] for i in range(d)], dtype=object)
+            Aref = mmul(dagm(Mref), Mref)
+            # ---------- NumPy branch
+            chk.configurations += 1
+            lam = [S.sc_var(f'pl{d}{r}{int(is_real)}_{j}') for j in range(r)]
+            V = H.cx_array(f'pv{d}{r}{int(is_real)}_', (1, r, r)) if not is_real else H.re_array(f'pv{d}{r}{int(is_real)}_', (1, r, r))
+            cap = []
+
+            def eigh_stub(x, lam=lam, V=V, cap=cap, r=r):
+                cap.append(x)
+                return A.sym_array(np.array(lam, dtype=object).reshape(1, r), np.float64), V
+            facp = facade.make_np_facade(linalg={'eigh': eigh_stub})
+            prep = [(l_ > 0).n for l_ in lam]
+            try:
+                paths, st = H.run_paths(lambda: M.to_stiefel_polar(th, d, r), prep, np_facade=facp, feas_timeout_ms=2000, max_paths=8)
+            except S.EngineError as e:
+                chk.engine_error(tagp + ' numpy', e)
+                paths = []
+            chk.add_path_stats(st) if paths else None
+            for pi, path in enumerate(paths):
+                if path.status != 'return':
+                    chk.add(f'{tagp} [numpy] raises {type(path.value).__name__}', prep + path.pc + path.facts, ir.FALSE, key=keyp, replay=rp)
+                    continue
+                with path.resume():
+                    base = prep + path.pc + path.facts + [c for k_, c in path.side]
+                    X = A.plain(path.value)
+                    Vp = A.plain(V)[0]
+                    dm = [(S.as_sc(1) / lam[i]).sqrt() for i in range(r)]
+                    Dm = np.array([[dm[i] if i == j else SC(ir.ZERO) for j in range(r)] for i in range(r)], dtype=object)
+                    ok = tuple(X.shape) == (d, r) and len(cap) >= 1 and tuple(cap[-1].shape)[-2:] == (r, r)
+                    chk.add(f'{tagp} [numpy] P1: the matrix handed to eigh is M^dag M', base, ir.band_all(eqm(A.plain(cap[-1]).reshape(r, r), Aref)) if ok else ir.FALSE, key=keyp, replay=rp)
+                    chk.add(f'{tagp} [numpy] P2: X == M V D V^dag with D = diag(sqrt(1/lambda)), and D_i^2 lambda_i == 1', base,
+                            ir.band_all(eqm(X, mmul(Mref, Vp, Dm, dagm(Vp))) + [H.eq_sc(dm[i] * dm[i] * lam[i], 1) for i in range(r)]) if ok else ir.FALSE, key=keyp, replay=rp)
+            # generic lemmas (fresh atoms): G1 re-association, G2 spectral step
+            Mv, Vv, Av = A.plain(H.cx_array(f'gM{d}{r}_', (d, r))), A.plain(H.cx_array(f'gV{d}{r}_', (r, r))), A.plain(H.herm_array(f'gA{d}{r}_', r))
+            dv = [S.sc_var(f'gd{d}{r}_{i}') for i in range(r)]
+            lv = [S.sc_var(f'gl{d}{r}_{i}') for i in range(r)]
+            Dv = np.array([[dv[i] if i == j else SC(ir.ZERO) for j in range(r)] for i in range(r)], dtype=object)
+            Tv = mmul(Vv, Dv, dagm(Vv))
+            if is_real:          # the lemmas do not depend on the field: state them once per (d, r)
+                chk.add(f'polar lemma G1 [d={d},r={r}]: (M T)^dag (M T) == V D (V^dag (M^dag M) V) D V^dag for T = V D V^dag, D real diagonal (identity in M, V, D)', [],
+                        ir.band_all(eqm(mmul(dagm(mmul(Mv, Tv)), mmul(Mv, Tv)), mmul(Vv, Dv, mmul(dagm(Vv), mmul(dagm(Mv), Mv), Vv), Dv, dagm(Vv)))), key='polar chart lemma', replay=rp)
+                Wv = A.plain(H.cx_array(f'gW{d}{r}_', (r, r)))
+                Ir = np.array([[S.as_sc(1 if i == j else 0) for j in range(r)] for i in range(r)], dtype=object)
+                hyp_a = eqm(Wv, np.array([[lv[i] if i == j else SC(ir.ZERO) for j in range(r)] for i in range(r)], dtype=object)) + [H.eq_sc(dv[i] * dv[i] * lv[i], 1) for i in range(r)]
+                chk.add(f'polar lemma G2a [r={r}]: V^dag A V = diag(lambda), D_i^2 lambda_i = 1  =>  D (V^dag A V) D == I', hyp_a, ir.band_all(eqm(mmul(Dv, Wv, Dv), Ir)), key='polar chart lemma', replay=rp)
+                Yv = A.plain(H.cx_array(f'gY{d}{r}_', (r, r)))
+                chk.add(f'polar lemma G2b [r={r}]: Y = I, V V^dag = I  =>  V Y V^dag == I', eqm(Yv, Ir) + eqm(mmul(Vv, dagm(Vv)), Ir), ir.band_all(eqm(mmul(Vv, Yv, dagm(Vv)), Ir)), key='polar chart lemma', replay=rp)
+            # ---------- torch branch
+            chk.configurations += 1
+            Ssym = H.herm_array(f'ps{d}{r}{int(is_real)}_', r)
+            if is_real:
+                Sre = np.empty((r, r), dtype=object)
+                for i in range(r):
+                    for j in range(r):
+                        Sre[i, j] = S.as_sc(A.plain(Ssym)[min(i, j), max(i, j)]).real
+                Ssym = A.wrap(Sre, np.float64)
+            capt = []
+
+            class SqrtStub:
+                @staticmethod
+                def apply(x, capt=capt, Ssym=Ssym, r=r):
+                    capt.append(x._sym if isinstance(x, SYT.SymTensor) else x)
+                    return SYT.tensor(A.sym_array(A.plain(Ssym).reshape(1, r, r), np.float64 if is_real else np.complex128))
+            nq = facade.Facade(numqi, {'_torch_op': facade.Facade(numqi._torch_op, {'PSDMatrixSqrtm': SqrtStub}, 'numqi._torch_op')}, 'numqi')
+            tf = SYT.torch_facade(stubs={'inv': adj_inv})
+            egt = T.torch_globals(tf, {'numqi.manifold._stiefel': {'numqi': nq}})
+            try:
+                paths, st = H.run_paths(lambda: M.to_stiefel_polar(SYT.tensor(th.copy()), d, r), [], extra_globals=egt, feas_timeout_ms=2000, max_paths=8)
+            except S.EngineError as e:
+                chk.engine_error(tagp + ' torch', e)
+                paths = []
+            chk.add_path_stats(st) if paths else None
+            for pi, path in enumerate(paths):
+                if path.status != 'return':
+                    chk.add(f'{tagp} [torch] raises {type(path.value).__name__}: {path.value}', path.pc + path.facts, ir.FALSE, key=keyp, replay=rp)
+                    continue
+                with path.resume():
+                    base = path.pc + path.facts + [c for k_, c in path.side]
+                    X = A.plain(path.value._sym)
+                    ok = tuple(X.shape) == (d, r) and len(capt) >= 1
+                    Sinv = A.plain(adj_inv(A.wrap(A.plain(Ssym).copy())))
+                    chk.add(f'{tagp} [torch] T1: the matrix handed to the matrix square root is M^dag M', base, ir.band_all(eqm(A.plain(capt[-1]).reshape(r, r), Aref)) if ok else ir.FALSE, key=keyp, replay=rp)
+                    chk.add(f'{tagp} [torch] T2: X == M inv(S)', base, ir.band_all(eqm(X, mmul(Mref, Sinv))) if ok else ir.FALSE, key=keyp, replay=rp)
+            if is_real and r <= 2:
+                Sv = A.plain(H.herm_array(f'gS{d}{r}_', r))
+                Siv = A.plain(adj_inv(A.wrap(Sv.copy())))
+                ctxg = S.ctx()
+                chk.add(f'polar lemma G3 [r={r}]: S Hermitian, invertible, A = S S  =>  inv(S)^dag A inv(S) == I (adjugate inverse)', [c for k_, c in ctxg.side if k_ == 'div'] + list(ctxg.facts),
+                        ir.band_all(eqm(mmul(dagm(Siv), mmul(Sv, Sv), Siv), np.array([[S.as_sc(1 if i == j else 0) for j in range(r)] for i in range(r)], dtype=object))), key='polar chart lemma', replay=rp)
+                Sg = A.plain(H.cx_array(f'gSi{d}{r}_', (r, r)))
+                chk.add(f'polar lemma G4 [d={d},r={r}]: (M T)^dag (M T) == T^dag (M^dag M) T (identity)', [], ir.band_all(eqm(mmul(dagm(mmul(Mv, Sg)), mmul(Mv, Sg)), mmul(dagm(Sg), mmul(dagm(Mv), Mv), Sg))), key='polar chart lemma', replay=rp)
     # ---- PyTorch branches: same exact values as the NumPy branch on the same symbolic theta (symnp.symtorch.SymTensor)
     chk.fn('numqi.gellmann.gellmann_basis_to_matrix [torch branch]')
     chk.stub('torch branch: torch.sigmoid -> same fresh-value contract as expit; torch.linalg.inv / cholesky_ex -> the exact adjugate / Cholesky stubs of the NumPy branch; '
